@@ -25,6 +25,7 @@ class Crate:
         self.impls = d['impls']
         self.sigs = d['sigs']
         self.inlined_helpers = d.get('inlined_helpers', [])
+        self.renamed_fns = d.get('renamed_fns', {})
         self.bodies = [Body(b, self) for b in d['bodies']]
         self.by_path = defaultdict(list)
         for b in self.bodies:
@@ -89,6 +90,132 @@ def known_fns():
     return _KNOWN_FNS
 
 
+_KNOWN_SIGS = None
+
+
+def known_sigs():
+    global _KNOWN_SIGS
+    if _KNOWN_SIGS is None:
+        p = os.path.join(os.path.dirname(os.path.abspath(__file__)), '..', 'spec', 'known_sigs.json')
+        try:
+            with open(p) as fh:
+                _KNOWN_SIGS = json.load(fh)
+        except OSError:
+            _KNOWN_SIGS = {}
+    return _KNOWN_SIGS
+
+
+_KNOWN_FPS = None
+
+
+def known_fps():
+    global _KNOWN_FPS
+    if _KNOWN_FPS is None:
+        p = os.path.join(os.path.dirname(os.path.abspath(__file__)), '..', 'spec', 'known_fps.json')
+        try:
+            with open(p) as fh:
+                _KNOWN_FPS = json.load(fh)
+        except OSError:
+            _KNOWN_FPS = {}
+    return _KNOWN_FPS
+
+
+def fingerprint(bdict):
+    """what a function body does, as a set: the item names it calls (non-cleanup blocks), the enum variants / structs it
+    builds and the string constants it mentions — stable under renaming of the function, its parameters and locals"""
+    out = set()
+    for blk in bdict['blocks']:
+        if blk.get('cleanup'):
+            continue
+        t = blk['term']
+        if t['k'] in ('call', 'tailcall') and t.get('name'):
+            if not t.get('mac') or all(m in ('desugar::QuestionMark',) or m.startswith('desugar') for m in t.get('mac', [])):
+                out.add('c:' + t['name'])
+        for st in blk['stmts']:
+            rv = st.get('rv') or {}
+            if 'agg' in rv and rv['agg'].get('kind') == 'adt':
+                out.add('a:%s::%s' % ((rv['agg'].get('adt') or '').split('::')[-1], rv['agg'].get('variant')))
+    return out
+
+
+def alias_renamed(dd, known, ksigs):
+    """a function of the pinned tree that is gone, while exactly one new function has the same parameter types (as a
+    multiset) and return type, was renamed or moved: give the new function the old path everywhere in the facts, so that
+    rules keep finding it (and it is not spliced into its callers).  Pure bookkeeping: cannot make a rule fire or pass."""
+    cur = {b['path']: b for b in dd['bodies'] if b['kind'] == 'fn'}
+    missing = [p for p in known if p not in cur and p in ksigs]
+    if not missing:
+        return
+    tys = dd['tys']
+    new = {}
+    for p_, b in cur.items():
+        if p_ not in known:
+            new[p_] = [tys[b['locals'][0]], sorted(tys[b['locals'][i]] for i in range(1, b['argc'] + 1))]
+    if not new:
+        return
+    ren = {}
+    for m in missing:
+        cands = [n for n, sg in new.items() if sg == ksigs[m]]
+        if len(cands) == 1:
+            ren.setdefault(cands[0], []).append(m)
+    ren = {n: ms[0] for n, ms in ren.items() if len(ms) == 1}
+    # ambiguous the other way round (two missing functions with the same signature and two new ones) is left alone
+    # second stage: the signature changed too (parameters bundled in a struct, free function turned into a method ..):
+    # match by what the body does (fingerprint), only when the best candidate is clearly ahead
+    kfp = known_fps().get(dd['crate'], {})
+    left_m = [m for m in missing if m not in ren.values() and len(kfp.get(m, [])) >= 4]
+    left_n = {n: fingerprint(cur[n]) for n in new if n not in ren}
+    pairs = []
+    for m in left_m:
+        fm = set(kfp[m])
+        scored = sorted(((len(fm & fn_) / float(len(fm | fn_) or 1), n) for n, fn_ in left_n.items()), reverse=True)
+        if scored and scored[0][0] >= 0.6 and (len(scored) == 1 or scored[0][0] - scored[1][0] >= 0.15):
+            pairs.append((scored[0][0], m, scored[0][1]))
+    used_n = {}
+    for sc, m, n in sorted(pairs, reverse=True):
+        if n not in used_n and n not in ren:
+            used_n[n] = m
+    for n, m in used_n.items():
+        ren[n] = m
+    if not ren:
+        return
+    olds = sorted(ren, key=len, reverse=True)
+
+    def fix(sv):
+        for o in olds:
+            if sv == o or sv.startswith(o + '::'):
+                return ren[o] + sv[len(o):]
+        return sv
+
+    def walk(x):
+        if isinstance(x, dict):
+            changed_fn = False
+            for k, v in list(x.items()):
+                if isinstance(v, str):
+                    nv = fix(v) if '::' in v else v
+                    if nv is not v and nv != v:
+                        x[k] = nv
+                        if k == 'fn':
+                            changed_fn = True
+                else:
+                    walk(v)
+            if changed_fn and 'name' in x:
+                x['name'] = x['fn'].split('::')[-1]
+        elif isinstance(x, list):
+            for i, v in enumerate(x):
+                if isinstance(v, str):
+                    if '::' in v:
+                        x[i] = fix(v)
+                else:
+                    walk(v)
+    walk(dd['bodies'])
+    for key in ('consts', 'sigs'):
+        if isinstance(dd.get(key), dict):
+            dd[key] = {fix(k): v for k, v in dd[key].items()}
+            walk(dd[key])
+    dd['renamed_fns'] = {o: ren[o] for o in olds}
+
+
 def load_dir(d, names=None, raw=False):
     """load fact files from directory d; returns {crate_name: [Crate,...]}"""
     out = defaultdict(list)
@@ -104,6 +231,7 @@ def load_dir(d, names=None, raw=False):
             continue
         kn = known_fns().get(dd['crate'])
         if kn is not None:
+            alias_renamed(dd, kn, known_sigs().get(dd['crate'], {}))
             inline_new_helpers(dd, kn)
         out[cname].append(Crate(dd, f))
     return out
